@@ -18,6 +18,7 @@ struct x15_inst {
 static void *(*x15_alloc)(size_t);
 static void (*x15_release)(void *);
 static long x15_made, x15_gone;
+static long x15_left = -1;   /* constructions still granted (instance limit); < 0: no limit */
 
 static int inst_conv(MPT_INTERFACE(convertable) *val, MPT_TYPE(type) type, void *ptr)
 {
@@ -60,11 +61,17 @@ extern void x15_bind(void *(*a)(size_t), void (*r)(void *))
 extern void *x15_make(void)
 {
 	struct x15_inst *in;
+	if (!x15_left) return 0;
 	if (!x15_alloc || !(in = (struct x15_inst *) x15_alloc(sizeof(*in)))) return 0;
 	in->_mt._vptr = &inst_vptr;
 	in->ref = 1;
 	x15_made++;
+	if (x15_left > 0) x15_left--;
 	return in;
+}
+extern void x15_budget(long n)
+{
+	x15_left = n;
 }
 extern long x15_stat(int what)
 {
